@@ -14,7 +14,8 @@ Definition names_of (f : bool) (ops : list op) : list path :=
 
 Definition others_of (f : bool) (ops : list op) : list path :=
   flat_map (fun o => match o with
-                     | OFetchChunk k co => [spec_chunk_rel (negb f) k co]
+                     | OFetchChunk k co =>
+                         match spec_chunk_name (negb f) k co with Some o' => [o'] | None => [] end
                      | _ => [] end) ops.
 
 (* MIME exemption of a name: that of the first store of the name *)
@@ -50,16 +51,25 @@ Definition op_okb (c : cfg) (ex : path -> bool) (U X : list path) (o : op) : boo
       negb (is_absolute n) &&
       match spec_norm n with Some p => memb p U | None => true end
   | OStoreChunk k co _ mime _ =>
-      simple_comp k && memb (spec_chunk_rel (flat c) k co) U &&
-      Bool.eqb (exempt mime) (ex (spec_chunk_rel (flat c) k co))
+      negb (match k with [] => true | _ => false end) && negb (is_absolute k) &&
+      match spec_chunk_name (flat c) k co with
+      | Some p => memb p U && Bool.eqb (exempt mime) (ex p)
+      | None => true
+      end
   | OFetchChunk k co =>
-      simple_comp k && memb (spec_chunk_rel (flat c) k co) U &&
-      memb (spec_chunk_rel (negb (flat c)) k co) X
+      negb (match k with [] => true | _ => false end) && negb (is_absolute k) &&
+      match spec_key k with
+      | Some kp => memb (kp ++ spec_chunk_tail (flat c) co) U &&
+                   memb (kp ++ spec_chunk_tail (negb (flat c)) co) X
+      | None => true
+      end
   end.
 
-(* the history guard: relative file names, simple keys, every name non-empty,
-   without ".." and without a component ending in ".gz", names pairwise
-   prefix-free, other-layout chunk paths unused, MIME exemption fixed per name *)
+(* the history guard: relative file names, relative non-empty scale keys, no
+   accepted name with a component ending in ".gz", accepted names pairwise
+   prefix-free, other-layout chunk paths unused, MIME exemption fixed per
+   name.  (Empty file names, names and keys mentioning ".." may occur: they
+   are refused on both sides.) *)
 Definition hist_guard (c : cfg) (ops : list op) : bool :=
   let U := names_of (flat c) ops in
   let X := others_of (flat c) ops in
@@ -96,6 +106,9 @@ Proof.
     + exact (Hname o H4).
 Qed.
 
+Lemma skipn_app_len : forall (A : Type) (a b : list A), skipn (length a) (a ++ b) = b.
+Proof. induction a; intro b; simpl; auto. Qed.
+
 Section C12.
 Variable B : Type.
 Variable plain : list N -> B.
@@ -114,9 +127,13 @@ Proof.
   - apply andb_true_iff in H as [H1 H2]. apply negb_true_iff in H1. split; [exact H1|].
     intros p Hp. rewrite Hp in H2. apply memb_In. exact H2.
   - apply andb_true_iff in H as [H H3]. apply andb_true_iff in H as [H1 H2].
-    repeat split; [exact H1 | apply memb_In; exact H2 | apply eqb_prop; exact H3].
+    apply negb_true_iff in H2. split; [intro E; subst k; discriminate|]. split; [exact H2|].
+    intros p Hp. rewrite Hp in H3. apply andb_true_iff in H3 as [H3 H4].
+    split; [apply memb_In; exact H3 | apply eqb_prop; exact H4].
   - apply andb_true_iff in H as [H H3]. apply andb_true_iff in H as [H1 H2].
-    repeat split; [exact H1 | apply memb_In; exact H2 | apply memb_In; exact H3].
+    apply negb_true_iff in H2. split; [intro E; subst k; discriminate|]. split; [exact H2|].
+    intros kp Hp. rewrite Hp in H3. apply andb_true_iff in H3 as [H3 H4].
+    split; apply memb_In; assumption.
 Qed.
 
 (* (1) last write wins: every guarded history on a fresh location *)
@@ -250,8 +267,205 @@ Proof.
   rewrite Hlen, firstn_all, Nat.sub_diag. simpl. rewrite app_nil_r. reflexivity.
 Qed.
 
-(* (5) confinement of the file methods: escaping names are refused before any
-   primitive is called, the tree is untouched *)
+(* (5) confinement.  [op_target]: the path an operation is about, None when
+   the name / key is refused. *)
+Definition op_target (c : cfg) (o : op) : option path :=
+  match o with
+  | OStoreFile n _ _ _ | OFetchFile n | OExists n => checked_path (base c) n
+  | OStoreChunk k co _ _ _ => chunk_path c (flat c) k co
+  | OFetchChunk k co => chunk_path c true k co
+  end.
+
+(* a refused operation calls no primitive: the tree is the same *)
+Theorem refused_untouched : forall c t o,
+  op_target c o = None -> run_op B plain gz gunzip c t o = (Refused, t).
+Proof.
+  intros c t o H. unfold run_op.
+  destruct o as [n buf mime ow | n | n | k co buf mime ow | k co]; simpl in H; simpl op_prog;
+    unfold fa_store_file, fa_fetch_file, fa_file_exists, fa_store_chunk, fa_fetch_chunk;
+    rewrite H; reflexivity.
+Qed.
+
+(* an accepted name or key denotes a path strictly below the base, without ".." *)
+Lemma checked_gen_confined : forall nn b s p, checked_path_gen nn b s = Some p ->
+  exists rest, p = b ++ rest /\ existsb is_dotdot rest = false /\ (nn = true -> rest <> []).
+Proof.
+  intros nn b s p H. unfold checked_path_gen in H.
+  assert (Hrel : forall r, rel_ok nn r = true -> existsb is_dotdot r = false /\ (nn = true -> r <> [])).
+  { intros r Hr. unfold rel_ok in Hr. apply andb_true_iff in Hr as [H1 H2].
+    apply negb_true_iff in H1. split; [exact H1|]. intros -> E. subst r. discriminate. }
+  destruct (root_kind s) as [|[|k]].
+  - destruct (rel_ok nn (parse_parts s)) eqn:E; [|discriminate]. inversion H; subst.
+    exists (parse_parts s). split; [reflexivity | apply Hrel; exact E].
+  - destruct (is_prefix b (parse_parts s)) eqn:Ep; [|discriminate].
+    destruct (rel_ok nn (skipn (length b) (parse_parts s))) eqn:E; [|discriminate].
+    inversion H; subst. apply is_prefix_iff in Ep. destruct Ep as [r Hr].
+    exists r. rewrite Hr in E |- *. rewrite skipn_app_len in E.
+    split; [reflexivity | apply Hrel; exact E].
+  - discriminate.
+Qed.
+
+Theorem accepted_confined : forall c o p, op_target c o = Some p ->
+  exists rest, p = base c ++ rest /\ existsb is_dotdot rest = false.
+Proof.
+  intros c o p H.
+  destruct o as [n buf mime ow | n | n | k co buf mime ow | k co]; simpl in H;
+    unfold checked_path, chunk_path in H;
+    destruct (checked_gen_confined _ _ _ _ H) as [r [H1 [H2 _]]]; exists r; auto.
+Qed.
+
+(* strictly below: file methods always; chunk methods for non-empty relative keys *)
+Definition strict_op (o : op) : bool :=
+  match o with
+  | OStoreChunk k _ _ _ _ | OFetchChunk k _ =>
+      negb (match k with [] => true | _ => false end) && negb (is_absolute k)
+  | _ => true
+  end.
+
+Theorem accepted_strict : forall c o p, strict_op o = true -> op_target c o = Some p ->
+  exists rest, p = base c ++ rest /\ existsb is_dotdot rest = false /\ rest <> [].
+Proof.
+  intros c o p Hs H.
+  assert (Hchunk : forall f k co, strict_op (OFetchChunk k co) = true -> chunk_path c f k co = Some p ->
+            exists rest, p = base c ++ rest /\ existsb is_dotdot rest = false /\ rest <> []).
+  { intros f k co Hk Hc. simpl in Hk. apply andb_true_iff in Hk as [Hk1 Hk2].
+    apply negb_true_iff in Hk2.
+    assert (Hne : k <> []) by (intro E; subst k; discriminate).
+    pose proof Hc as Hc'. rewrite (chunk_path_spec c f k co Hne Hk2) in Hc'.
+    unfold spec_chunk_name in Hc'. destruct (spec_key k) as [kp|]; [|discriminate].
+    simpl in Hc'. inversion Hc'; subst. exists (kp ++ spec_chunk_tail f co).
+    split; [reflexivity|]. split.
+    - unfold chunk_path in Hc. destruct (checked_gen_confined _ _ _ _ Hc) as [r [H1 [H2 _]]].
+      apply app_inv_head in H1. rewrite H1. exact H2.
+    - destruct f; simpl; intro E; apply app_eq_nil in E as [_ E]; discriminate. }
+  destruct o as [n buf mime ow | n | n | k co buf mime ow | k co]; simpl in H.
+  - destruct (checked_gen_confined _ _ _ _ H) as [r [H1 [H2 H3]]]. exists r. auto.
+  - destruct (checked_gen_confined _ _ _ _ H) as [r [H1 [H2 H3]]]. exists r. auto.
+  - destruct (checked_gen_confined _ _ _ _ H) as [r [H1 [H2 H3]]]. exists r. auto.
+  - apply (Hchunk (flat c) k co); assumption.
+  - apply (Hchunk true k co); assumption.
+Qed.
+
+(* every path handed to a file-system primitive *)
+Definition call_path (cl : call B) : path :=
+  match cl with
+  | CIsFile p | CExists p | CMakedirs p | COpen p _ | CWrite p _ | CRead p | CClose p => p
+  end.
+Fixpoint calls_in {A} (P : path -> Prop) (p : prog B A) : Prop :=
+  match p with
+  | Ret _ => True
+  | Do cl k => P (call_path cl) /\ forall r, calls_in P (k r)
+  end.
+
+Lemma calls_in_trace : forall A (P : path -> Prop) (p : prog B A), calls_in P p ->
+  forall t, Forall (fun cl => P (call_path cl)) (trace B (plain []) t p).
+Proof.
+  intros A P p. induction p as [a | cl k IH]; intros H t; simpl; [constructor|].
+  destruct H as [H1 H2]. destruct (exec_call B (plain []) t cl) as [r t'].
+  constructor; [exact H1 | apply IH, H2].
+Qed.
+
+Definition below (b : path) (q : path) : Prop :=
+  exists r, q = b ++ r /\ existsb is_dotdot r = false.
+
+Lemma below_parent : forall b rest, rest <> [] -> existsb is_dotdot rest = false ->
+  below b (parent (b ++ rest)).
+Proof.
+  intros b rest Hne Hd. unfold parent. rewrite removelast_app by exact Hne.
+  exists (removelast rest). split; [reflexivity|].
+  destruct (snoc_cases _ rest) as [-> | [h [l ->]]]; [contradiction|].
+  rewrite removelast_snoc. rewrite existsb_app in Hd. apply orb_false_iff in Hd. tauto.
+Qed.
+
+Lemma below_gz : forall b rest, rest <> [] -> existsb is_dotdot rest = false ->
+  below b (with_gz (b ++ rest)).
+Proof.
+  intros b rest Hne Hd. rewrite with_gz_app by exact Hne. exists (with_gz rest). split; [reflexivity|].
+  destruct (snoc_cases _ rest) as [-> | [h [l ->]]]; [contradiction|].
+  rewrite with_gz_snoc. rewrite existsb_app in *. apply orb_false_iff in Hd as [Hd _].
+  rewrite Hd. simpl. rewrite is_dotdot_gz. reflexivity.
+Qed.
+
+Lemma calls_read_handle : forall (P : path -> Prop) q z, P q -> calls_in P (read_handle B plain gunzip q z).
+Proof.
+  intros P q z H. unfold read_handle. simpl. split; [exact H|].
+  intros [x| |d|e]; simpl; (split; [exact H | intros r; destruct r; exact I]).
+Qed.
+
+Definition handle_ok (P : path -> Prop) (f : option (path * bool)) : Prop :=
+  match f with None => True | Some (q, _) => P q end.
+
+Lemma calls_probe : forall A (P : path -> Prop) q f (fail : prog B A) (k : option (path * bool) -> prog B A),
+  P q -> P (with_gz q) -> handle_ok P f -> calls_in P fail ->
+  (forall f', handle_ok P f' -> calls_in P (k f')) ->
+  calls_in P (probe B q f fail k).
+Proof.
+  intros A P q f fail k H1 H2 Hh Hf Hk. unfold probe. simpl. split; [exact H1|].
+  intros [[|]| |d|e]; simpl; try exact Hf.
+  - split; [exact H1|]. intros [x| |d|e]; simpl; try exact Hf; apply Hk; exact H1.
+  - split; [exact H2|]. intros [[|]| |d|e]; simpl; try exact Hf; try (apply Hk; exact Hh).
+    split; [exact H2|]. intros [x| |d|e]; simpl; try exact Hf; apply Hk; exact H2.
+  - split; [exact H2|]. intros [[|]| |d'|e]; simpl; try exact Hf; try (apply Hk; exact Hh).
+    split; [exact H2|]. intros [x| |d''|e]; simpl; try exact Hf; apply Hk; exact H2.
+  - split; [exact H2|]. intros [[|]| |d'|e]; simpl; try exact Hf; try (apply Hk; exact Hh).
+    split; [exact H2|]. intros [x| |d''|e]; simpl; try exact Hf; apply Hk; exact H2.
+Qed.
+
+Lemma calls_store_at : forall (P : path -> Prop) c fp buf mime ow,
+  P (parent fp) -> P fp -> P (with_gz fp) -> calls_in P (store_at B plain gz c fp buf mime ow).
+Proof.
+  intros P c fp buf mime ow H0 H1 H2. unfold store_at. simpl. split; [exact H0|].
+  assert (Ht : P (if gzip c && negb (exempt mime) then with_gz fp else fp))
+    by (destruct (gzip c && negb (exempt mime)); assumption).
+  intros [x| |d|e]; simpl; try exact I;
+    (split; [exact Ht|]; intros [x1| |d1|e1]; simpl; try exact I;
+     (split; [exact Ht|]; intros [x2| |d2|e2]; simpl;
+      (split; [exact Ht | intros r; destruct r; exact I]))).
+Qed.
+
+(* no operation ever hands a path outside the dataset directory (or one
+   mentioning "..") to a primitive: for EVERY tree and every name / key *)
+Theorem touches_only_below : forall c o, strict_op o = true ->
+  calls_in (below (base c)) (op_prog B plain gz gunzip c o).
+Proof.
+  intros c o Hs.
+  assert (Hfp : forall p, op_target c o = Some p ->
+            below (base c) (parent p) /\ below (base c) p /\ below (base c) (with_gz p)).
+  { intros p Hp. destruct (accepted_strict c o p Hs Hp) as [rest [-> [Hd Hne]]].
+    split; [apply below_parent; assumption|]. split; [exists rest; auto | apply below_gz; assumption]. }
+  assert (Hafter : forall f', handle_ok (below (base c)) f' ->
+            calls_in (below (base c))
+              (match f' with None => Ret AccessErr | Some (q, z) => read_handle B plain gunzip q z end)).
+  { intros [[q z]|] Hq; [apply calls_read_handle; exact Hq | exact I]. }
+  destruct o as [n buf mime ow | n | n | k co buf mime ow | k co]; simpl op_prog; simpl op_target in Hfp.
+  - unfold fa_store_file. destruct (checked_path (base c) n) as [fp|]; [|exact I].
+    destruct (Hfp fp eq_refl) as [H0 [H1 H2]]. apply calls_store_at; assumption.
+  - unfold fa_fetch_file. destruct (checked_path (base c) n) as [fp|]; [|exact I].
+    destruct (Hfp fp eq_refl) as [H0 [H1 H2]].
+    apply calls_probe; try assumption; try exact I.
+  - unfold fa_file_exists. destruct (checked_path (base c) n) as [fp|]; [|exact I].
+    destruct (Hfp fp eq_refl) as [H0 [H1 H2]]. simpl. split; [exact H1|].
+    intros [[|]| |d|e]; simpl; try exact I; (split; [exact H2 | intros r; destruct r; exact I]).
+  - unfold fa_store_chunk. destruct (chunk_path c (flat c) k co) as [fp|]; [|exact I].
+    destruct (Hfp fp eq_refl) as [H0 [H1 H2]]. apply calls_store_at; assumption.
+  - unfold fa_fetch_chunk. destruct (chunk_path c true k co) as [pf|] eqn:Ef; [|exact I].
+    destruct (Hfp pf eq_refl) as [H0 [H1 H2]].
+    apply calls_probe; try assumption; try exact I.
+    intros f1 Hf1. destruct (chunk_path c false k co) as [pd|] eqn:Ed; [|exact I].
+    assert (Hd : below (base c) pd /\ below (base c) (with_gz pd)).
+    { simpl in Hs. apply andb_true_iff in Hs as [Hk1 Hk2]. apply negb_true_iff in Hk2.
+      assert (Hne : k <> []) by (intro E; subst k; discriminate).
+      pose proof Ed as Ed'. rewrite (chunk_path_spec c false k co Hne Hk2) in Ed'.
+      unfold spec_chunk_name in Ed'. destruct (spec_key k) as [kp|]; [|discriminate].
+      simpl in Ed'. inversion Ed'; subst.
+      unfold chunk_path in Ed. destruct (checked_gen_confined _ _ _ _ Ed) as [r [E1 [E2 _]]].
+      apply app_inv_head in E1. subst r.
+      assert (Hne2 : kp ++ spec_chunk_tail false co <> [])
+        by (simpl; intro E; apply app_eq_nil in E as [_ E]; discriminate).
+      split; [exists (kp ++ spec_chunk_tail false co); auto | apply below_gz; assumption]. }
+    destruct Hd as [Hd1 Hd2]. apply calls_probe; try assumption; try exact I.
+Qed.
+
 Definition file_op_of (kind : nat) (name buf mime : list N) (ow : bool) : op :=
   match kind with
   | O => OStoreFile name buf mime ow
@@ -259,30 +473,45 @@ Definition file_op_of (kind : nat) (name buf mime : list N) (ow : bool) : op :=
   | _ => OExists name
   end.
 
-Theorem confined_relative : forall c t kind name buf mime ow,
-  is_absolute name = false -> spec_norm name = None ->
-  run_op B plain gz gunzip c t (file_op_of kind name buf mime ow) = (Refused, t).
+(* ShardedFileAccessor file methods: the same confinement (the empty name is
+   accepted there and denotes the dataset directory itself) *)
+Definition sh_target (b : path) (o : op) : option path :=
+  match o with
+  | OStoreFile n _ _ _ | OFetchFile n | OExists n => sh_path b n
+  | _ => None
+  end.
+
+Theorem sh_refused_untouched : forall b t n buf mime ow kind,
+  sh_path b n = None ->
+  run B (plain []) t (sh_op_prog B plain b (file_op_of kind n buf mime ow)) = (Refused, t).
 Proof.
-  intros c t kind name buf mime ow Hrel Hn. unfold run_op.
-  destruct kind as [|[|k]]; simpl op_prog;
-    unfold fa_store_file, fa_fetch_file, fa_file_exists;
-    rewrite (checked_path_rel c name Hrel), Hn; reflexivity.
+  intros b t n buf mime ow kind H.
+  destruct kind as [|[|k]]; simpl; unfold sh_store_file, sh_fetch_file, sh_file_exists; rewrite H; reflexivity.
 Qed.
 
-Theorem confined_absolute : forall c t kind name buf mime ow,
-  is_absolute name = true -> is_prefix (base c) (parse_parts name) = false ->
-  run_op B plain gz gunzip c t (file_op_of kind name buf mime ow) = (Refused, t).
+Theorem sh_touches_only_below : forall b n buf mime ow kind,
+  calls_in (below b) (sh_op_prog B plain b (file_op_of kind n buf mime ow)).
 Proof.
-  intros c t kind name buf mime ow Habs Hp. unfold run_op.
-  assert (Hc : checked_path (base c) name = None).
-  { unfold checked_path. destruct (root_kind name) as [|[|k]] eqn:Er.
-    - destruct name as [|a r]; [discriminate|]. simpl in Habs, Er.
-      apply N.eqb_eq in Habs. subst a. simpl in Er. destruct r as [|b r]; [discriminate|].
-      destruct (b =? slash); [destruct r as [|x r]; [discriminate | destruct (x =? slash); discriminate] | discriminate].
-    - rewrite Hp. reflexivity.
-    - reflexivity. }
-  destruct kind as [|[|k]]; simpl op_prog;
-    unfold fa_store_file, fa_fetch_file, fa_file_exists; rewrite Hc; reflexivity.
+  intros b n buf mime ow kind.
+  assert (Hw : forall p, below b p -> calls_in (below b) (sh_write B plain p buf)).
+  { intros p Hp. unfold sh_write. simpl. split; [exact Hp|].
+    intros [x| |d|e]; simpl; try exact I;
+      (split; [exact Hp|]; intros [x1| |d1|e1]; simpl; (split; [exact Hp | intros r; destruct r; exact I])). }
+  destruct kind as [|[|k]]; simpl.
+  - unfold sh_store_file. destruct (sh_path b n) as [p|] eqn:E; [|exact I].
+    unfold sh_path in E. destruct (checked_gen_confined _ _ _ _ E) as [r [H1 [H2 _]]].
+    assert (Hp : below b p) by (exists r; auto).
+    destruct ow; [apply Hw; exact Hp|]. simpl. split; [exact Hp|].
+    intros [[|]| |d|e]; simpl; try exact I; apply Hw; exact Hp.
+  - unfold sh_fetch_file. destruct (sh_path b n) as [p|] eqn:E; [|exact I].
+    unfold sh_path in E. destruct (checked_gen_confined _ _ _ _ E) as [r [H1 [H2 _]]].
+    assert (Hp : below b p) by (exists r; auto).
+    simpl. split; [exact Hp|].
+    intros [x| |d|e]; simpl; try exact I;
+      (split; [exact Hp|]; intros [x1| |d1|e1]; simpl; (split; [exact Hp | intros r0; destruct r0; exact I])).
+  - unfold sh_file_exists. destruct (sh_path b n) as [p|] eqn:E; [|exact I].
+    unfold sh_path in E. destruct (checked_gen_confined _ _ _ _ E) as [r [H1 [H2 _]]].
+    simpl. split; [exists r; auto | intros r0; destruct r0; exact I].
 Qed.
 
 End C12.
@@ -296,48 +525,6 @@ Definition w_cfg (f g : bool) : cfg := {| base := w_base; flat := f; gzip := g; 
 Definition w_tree : fs blob := [([[119]], Dir); (w_base, Dir); (w_sentinel, File (BPlain [83]))].
 Definition w_run (c : cfg) (ops : list op) :=
   run_ops blob BPlain BGz (blob_gunzip []) c w_tree ops.
-
-(* the empty name: FileAccessor.store_file("", buf) with gzip on writes
-   <base>.gz, a sibling of the dataset directory *)
-Lemma empty_name_refuted :
-  exists c name buf,
-    parse_parts name = [] /\
-    let '(outs, t) := w_run c [OStoreFile name buf [] false; OFetchFile name] in
-    outs = [Ok VUnit; Ok (VData (BPlain buf))] /\
-    exists q d, lookup blob t q = Some (File d) /\ lookup blob w_tree q = None /\
-                is_prefix (base c) q = false.
-Proof.
-  exists (w_cfg false true), [], [7]. split; [reflexivity|].
-  vm_compute. split; [reflexivity|].
-  exists [[119]; [100; 115; 46; 103; 122]], (BGz 9 [7]). repeat split.
-Qed.
-
-(* a chunk key with "..": FileAccessor.store_chunk writes outside *)
-Lemma chunk_key_refuted :
-  exists c key co buf,
-    simple_comp key = false /\
-    let '(outs, t) := w_run c [OStoreChunk key co buf [] true] in
-    outs = [Ok VUnit] /\
-    exists q d, lookup blob t q = Some (File d) /\ lookup blob w_tree q = None /\
-                is_prefix (base c) q = false.
-Proof.
-  exists (w_cfg true false), [46; 46; 47; 101], {| cx0 := 0; cx1 := 1; cy0 := 0; cy1 := 1; cz0 := 0; cz1 := 1 |}, [7].
-  split; [reflexivity|]. vm_compute. split; [reflexivity|].
-  exists [[119]; [101]; [48; 45; 49; 95; 48; 45; 49; 95; 48; 45; 49]], (BPlain [7]). repeat split.
-Qed.
-
-(* ShardedFileAccessor: reads and writes outside the dataset directory *)
-Lemma sharded_confined_refuted :
-  exists name1 name2,
-    spec_norm name1 = None /\ spec_norm name2 = None /\
-    let '(outs, t) := sh_run_ops blob BPlain w_base w_tree
-                        [OFetchFile name1; OStoreFile name2 [7] [] false] in
-    outs = [Ok (VData (BPlain [83])); Ok VUnit] /\
-    lookup blob t [[119]; [110]] = Some (File (BPlain [7])) /\
-    is_prefix w_base [[119]; [110]] = false.
-Proof.
-  exists [46; 46; 47; 115], [47; 119; 47; 110]. vm_compute. repeat split.
-Qed.
 
 (* a tree written under two configurations: the copy that is found is fixed
    by the probe order (plain before .gz, deep after flat), not by recency *)
